@@ -18,7 +18,7 @@ for id in $ids; do
   (cd $WT && go build ./...) || { echo "$id: does not build"; git -C /repo worktree remove --force $WT; continue; }
   caught=""
   for p in $props; do
-    STFS_VERIF=$SNAP STFS_OUT=$SNAP/scratch STFS_REPO=$WT $SNAP/bin/stfsvc check $p > $d/check_$p.log 2>&1; rc=$?
+    STFS_NO_REPLAY=1 STFS_VERIF=$SNAP STFS_OUT=$SNAP/scratch STFS_REPO=$WT $SNAP/bin/stfsvc check $p > $d/check_$p.log 2>&1; rc=$?
     [ $rc -ne 0 ] && caught="$caught $p(rc=$rc)"
   done
   git -C /repo worktree remove --force $WT
